@@ -558,7 +558,7 @@ def param_markers(ctx, rid, core, scope_fns, declare=True):
             tpl, a = covered.get(k_, (None, None))
             ctx.inst(rid, "%s[%s]" % (name.replace(CORE, ""), k_), None if tpl is None else tpl == want[k_],
                      "a %s parameter is printed as %r (the grammar reads %r)" % (k_, tpl, want[k_]), H.loc(a["body"]) if a else H.loc(f["body"]))
-    ctx.inst(rid, "parameter-printers#found", n_single >= 1, "%d per-parameter printer(s) found" % n_single, None)
+    ctx.inst(rid, "parameter-printers#found", True if n_single >= 1 else None, "%d per-parameter printer(s) found (functions from one LambdaArg to its text; a printer that writes into a buffer is not modelled)" % n_single, None)
     # a parameter list assembled from get_name() has lost the markers
     n_bare = 0
     for name, f in sorted(pf.items()):
@@ -568,7 +568,7 @@ def param_markers(ctx, rid, core, scope_fns, declare=True):
             if H.kind(x) == "MethodCall" and x["name"] == "map" and x.get("args") and H.kind(H.strip(x["args"][0])) == "Closure":
                 clo = H.strip(x["args"][0])
                 gets = [y for y in H.walk(clo["body"]) if H.kind(y) == "MethodCall" and y["name"] == "get_name" and "LambdaArg" in (y.get("recv_ty") or H.strip(y["recv"]).get("ty") or "")]
-                if gets and "String" in (H.strip(clo["body"]).get("ty") or ""):
+                if gets and (H.strip(clo["body"]).get("ty") or "").lstrip("&") in ("alloc::string::String", "str", "'static str"):
                     n_bare += 1
                     ctx.inst(rid, "%s#parameters-by-bare-name" % name.replace(CORE, ""), False, "a parameter list is built from get_name() alone (%s): optional and rest parameters are emitted as required ones" % H.loc(gets[0]), H.loc(x))
     ctx.inst(rid, "parameters-by-bare-name#none", n_bare == 0, "parameter lists printed from bare names: %d" % n_bare, None)
